@@ -64,11 +64,16 @@ HOSTS = {
     'v4': ('10.{}.0.{}', 2, 'v4'), 'v4b': ('1{}2.168.1.{}', 2, 'v4'),
     'v6a': ('[::{}]', 1, 'v6'), 'v6b': ('[{}::1]', 1, 'v6'), 'v6c': ('[2001:db8::{}:1]', 1, 'v6'), 'v6d': ('[::ffff:1.2.3.4]', 0, 'v6'),
     'v6e': ('[fe80:{}:0:0:0:0:0:1]', 1, 'v6'), 'v6f': ('[::]', 0, 'v6'),
+    # a registered name with one two-byte UTF-8 character (U+00C0..U+00FF, e.g. sharp s): the name the target carries is the name
+    # handed to the resolver, not a mapped / transliterated one
+    'u8': ('fa{}.example', 1, 'name'),
 }
 
 
 def _host(kind, h0, h1, h2):
     tpl, n, k = HOSTS[kind]
+    if kind == 'u8':
+        return b'fa\xc3' + B(0x80 + (h0 - 33)) + b'.example', k
     parts = tpl.split('{}')
     hs = [h0, h1, h2]
     out = parts[0].encode()
@@ -78,6 +83,8 @@ def _host(kind, h0, h1, h2):
 
 
 def _char_ok(k, kind, c):
+    if kind == 'u8':
+        return 33 <= c <= 96
     if k == 'name':
         return 97 <= c <= 122 or 48 <= c <= 57
     if k == 'v4' or kind == 'v6d':
@@ -378,7 +385,7 @@ def obligations(tier):
 
 META = {
     'bounds': {
-        'quick': 'forms: absolute http://, scheme-less //, CONNECT authority; hosts: reg-names with 1-3 symbolic [a-z0-9] characters, IPv4 '
+        'quick': 'forms: absolute http://, scheme-less //, CONNECT authority; hosts: reg-names with 1-3 symbolic [a-z0-9] characters, a reg-name with one symbolic two-byte UTF-8 character (U+00C0..U+00FF), IPv4 '
                  'with 2 symbolic digits, 6 IPv6 spellings (::x, x::1, 2001:db8::x:1, ::ffff:1.2.3.x, full form, ::) with a symbolic hex digit; '
                  'port absent or symbolic 1..65535 rendered with str() (plus 5 spellings with leading zeros); also with --enable-conn-pool; optional userinfo (u:p, u, u:p:q, :p); path of 0..2 symbolic visible characters; '
                  'with a resolve_dns plugin: two successive connections of one worker to the same host, ports symbolic, explicit/defaulted, http/CONNECT; '
